@@ -276,58 +276,36 @@ Builtins == {B("ABS"), B("INT"), B("RND")}
 (* Expressions: one recursive-descent level per precedence tier, each a    *)
 (* left-folding loop.  OR < AND < comparisons < + - < * / < ^ < unary.     *)
 (***************************************************************************)
-RECURSIVE EvalExpr(_), EvalAnd(_), EvalEq(_), EvalAddSub(_), EvalMulDiv(_), EvalPow(_), EvalUnary(_),
-          EvalParen(_), EvalTerm(_), OrLoop(_, _), AndLoop(_, _), EqLoop(_, _), AddSubLoop(_, _),
-          MulDivLoop(_, _), PowLoop(_, _), EvalIndex(_), IndexLoop(_, _), EvalNumArg(_),
+RECURSIVE EvalExpr(_), EvalTier(_, _), TierLoop(_, _, _), EvalUnary(_),
+          EvalParen(_), EvalTerm(_), EvalIndex(_), IndexLoop(_, _), EvalNumArg(_),
           CallUser(_, _), BindArgs(_, _, _, _)
 
 \* combine a left value with the result of evaluating the right operand
 Apply(r, opres) == IF opres.e # "" THEN [r EXCEPT !.e = opres.e] ELSE [r EXCEPT !.v = opres.v]
 
-EvalExpr(I) == LET a == EvalAnd(I) IN IF Fail(a) THEN a ELSE OrLoop(a.I, a.v)
-OrLoop(I, v) ==
-    IF Peek(I).k # "or" THEN ROk(I, v)
-    ELSE LET b == EvalAnd(Adv(I))
-         IN  IF Fail(b) THEN b
-             ELSE LET c == Apply(b, LogicOr(v, b.v)) IN IF Fail(c) THEN c ELSE OrLoop(c.I, c.v)
+\* The six binary tiers, loosest first.  Tier n's operands are tier n+1
+\* expressions; tier 7 is the unary level.
+TierOps(n) == CASE n = 1 -> {"or"} [] n = 2 -> {"and"} [] n = 3 -> EqualityOps
+                [] n = 4 -> {"plus", "minus"} [] n = 5 -> {"multiply", "divide"} [] n = 6 -> {"caret"}
+BinaryOp(op, a, b) ==
+    CASE op = "or" -> LogicOr(a, b)
+      [] op = "and" -> LogicAnd(a, b)
+      [] op \in EqualityOps -> Compare(op, a, b)
+      [] op = "caret" -> Power(a, b)
+      [] OTHER -> Arith(op, a, b)
 
-EvalAnd(I) == LET a == EvalEq(I) IN IF Fail(a) THEN a ELSE AndLoop(a.I, a.v)
-AndLoop(I, v) ==
-    IF Peek(I).k # "and" THEN ROk(I, v)
-    ELSE LET b == EvalEq(Adv(I))
-         IN  IF Fail(b) THEN b
-             ELSE LET c == Apply(b, LogicAnd(v, b.v)) IN IF Fail(c) THEN c ELSE AndLoop(c.I, c.v)
+EvalExpr(I) == EvalTier(I, 1)
 
-EvalEq(I) == LET a == EvalAddSub(I) IN IF Fail(a) THEN a ELSE EqLoop(a.I, a.v)
-EqLoop(I, v) ==
-    IF Peek(I).k \notin EqualityOps THEN ROk(I, v)
+\* one recursive-descent level: a left-folding loop over the tier's operators
+EvalTier(I, n) ==
+    IF n = 7 THEN EvalUnary(I)
+    ELSE LET a == EvalTier(I, n + 1) IN IF Fail(a) THEN a ELSE TierLoop(a.I, a.v, n)
+TierLoop(I, v, n) ==
+    IF Peek(I).k \notin TierOps(n) THEN ROk(I, v)
     ELSE LET op == Peek(I).k
-             b == EvalAddSub(Adv(I))
+             b == EvalTier(Adv(I), n + 1)
          IN  IF Fail(b) THEN b
-             ELSE LET c == Apply(b, Compare(op, v, b.v)) IN IF Fail(c) THEN c ELSE EqLoop(c.I, c.v)
-
-EvalAddSub(I) == LET a == EvalMulDiv(I) IN IF Fail(a) THEN a ELSE AddSubLoop(a.I, a.v)
-AddSubLoop(I, v) ==
-    IF Peek(I).k \notin {"plus", "minus"} THEN ROk(I, v)
-    ELSE LET op == Peek(I).k
-             b == EvalMulDiv(Adv(I))
-         IN  IF Fail(b) THEN b
-             ELSE LET c == Apply(b, Arith(op, v, b.v)) IN IF Fail(c) THEN c ELSE AddSubLoop(c.I, c.v)
-
-EvalMulDiv(I) == LET a == EvalPow(I) IN IF Fail(a) THEN a ELSE MulDivLoop(a.I, a.v)
-MulDivLoop(I, v) ==
-    IF Peek(I).k \notin {"multiply", "divide"} THEN ROk(I, v)
-    ELSE LET op == Peek(I).k
-             b == EvalPow(Adv(I))
-         IN  IF Fail(b) THEN b
-             ELSE LET c == Apply(b, Arith(op, v, b.v)) IN IF Fail(c) THEN c ELSE MulDivLoop(c.I, c.v)
-
-EvalPow(I) == LET a == EvalUnary(I) IN IF Fail(a) THEN a ELSE PowLoop(a.I, a.v)
-PowLoop(I, v) ==
-    IF Peek(I).k # "caret" THEN ROk(I, v)
-    ELSE LET b == EvalUnary(Adv(I))
-         IN  IF Fail(b) THEN b
-             ELSE LET c == Apply(b, Power(v, b.v)) IN IF Fail(c) THEN c ELSE PowLoop(c.I, c.v)
+             ELSE LET c == Apply(b, BinaryOp(op, v, b.v)) IN IF Fail(c) THEN c ELSE TierLoop(c.I, c.v, n)
 
 \* at most one unary operator, binding tighter than ^
 EvalUnary(I) ==
